@@ -1,5 +1,6 @@
 import CwPlus.Driver.Common
 import CwPlus.Model.Cw4Group
+import CwPlus.Model.MsgWire
 import CwPlus.Model.Cw4Raw
 /-!
 Scenario `cw4group`: op-line parser, observation renderer and property monitors
@@ -169,7 +170,8 @@ def stepOp (m : MState) (toks : List String) : MState × StepResult :=
         match execute s m.height snd msg with
         | .ok (s', out) =>
           ({ m with st := some s', heights := insertNat m.height m.heights },
-           { ok := some true, out := [("msgs", ";".intercalate (out.map renderOut))], tag := s!"{kind}.ok" })
+           { ok := some true, out := [("msgs", ";".intercalate (out.map renderOut)), ("hookraw", MsgWire.hookRawOfGroup out)],
+             tag := s!"{kind}.ok" })
         | .error e => err m s!"{kind}.{e}"
   | "query" :: kind :: rest =>
     let a := args rest
